@@ -389,6 +389,23 @@ def process(ctx, cases):
         bad = oracle(c, canon, obj, log)
         if bad:
             ctx.violation("C07:" + c["family"], c, bad)
+        elif isinstance(obj, dict) and type(obj) is not dict:
+            # history: the caller owns the returned model and may modify it in place; building the same expression
+            # again must give the same (correct) model -- a result that aliases memoised / shared state fails here
+            try:
+                obj *= 3
+                obj += 5
+            except Exception:
+                pass
+            else:
+                canon2, obj2, log2 = run_impl(c)
+                bad2 = oracle(c, canon2, obj2, log2)
+                ctx.count("rebuild-after-mutation")
+                if bad2:
+                    ctx.violation("C07:rebuild", c, "after the first result was modified in place (res *= 3; res += 5) "
+                                  "the same expression was built again: " + bad2)
+                elif canon2 != canon:
+                    ctx.diff("rebuild", c, canon2, canon)
         ctx.traces += 1
 
 def check(ctx):
